@@ -32,7 +32,7 @@ BAND = "confidence_from_left_right_consistency"
 def translate():
     from translator import registry
 
-    return registry.generate("Constants", "RefineCC")
+    return registry.generate("Constants", "RefineCC", "KernelsCrossCheck")
 
 
 def wire(q):
@@ -493,6 +493,64 @@ def variant_cross_check(report, status):
                                      f"behaviour observed ({VARIANT['name']})")
 
 
+def kernel_cross_check(ctx, report, status):
+    """T14i: the row body of disparity_checking as translator/pyvec_idx.py reads it (the tree behind
+    Generated/KernelsCrossCheck.lean: crossCheckRow) evaluated exactly, against the REAL disparity_checking, row by row and
+    cell by cell (flag word and confidence band), plus the translator's self-test of refused constructs."""
+    from translator import gen_kernels_crosscheck as gk
+    from translator import pyvec_idx
+    from translator.common import Unsupported
+
+    report.translator_checks += 1
+    for problem in pyvec_idx.selftest():
+        status.problem("translator", f"pyvec_idx self-test: {problem}")
+    try:
+        k = gk.kernel()
+    except Unsupported as exc:
+        status.problem("translator", f"Unsupported: {exc}")
+        return
+
+    def fl(v):
+        if v is None or v == "nan":
+            return pyvec_idx.FNAN
+        return v if v in (pyvec_idx.PINF, pyvec_idx.NINF) else Fraction(v)
+
+    def dec(v):
+        if v in ("nan", "inf", "-inf"):
+            return v
+        return Fraction(v)
+
+    rows = cells = 0
+    for i in range(ctx.n(160, 1500)):
+        case = random_check_case(ctx.rng)
+        impl = ca.run_check(case)
+        if impl.get("res") != "ok":
+            continue
+        off, nrow, ncol = int(case["offset"]), len(case["disp_a"]), len(case["disp_a"][0])
+        rng_d = list(range(int(case["dmin"]), int(case["dmax"]) + 1))
+        for r in range(nrow):
+            res, vals = pyvec_idx.evaluate(k, {
+                "maskL": [int(x) for x in case["mask_a"][r]], "dispL": [fl(x) for x in case["disp_a"][r]],
+                "dispR": [fl(x) for x in case["disp_b"][r]], "threshold": fl(case["threshold"]), "disparity_range": rng_d})
+            rows += 1
+            if res != "ok":
+                status.problem("translator", f"translated row body reports {res} ({vals}) where the real disparity_checking "
+                               f"returns normally, row {r} of {json.dumps(case)[:300]}")
+                return
+            for c in range(ncol):
+                border = off > 0 and (r < off or r >= nrow - off or c < off or c >= ncol - off)
+                got_m, got_c = vals[0][c], vals[1][c]
+                want_m, want_c = impl["mask"][r][c], dec(impl["conf"][r][c])
+                cells += 1
+                if (not border and got_m != want_m) or got_c != want_c:
+                    status.problem("translator", f"translated row body evaluates differently from the real disparity_checking "
+                                   f"at row {r} col {c}: translated flag={got_m} conf={got_c}, real flag={want_m} conf={want_c}; "
+                                   f"case {json.dumps(case)[:400]}")
+                    return
+    report.count("kernel_rows_vs_real", rows)
+    report.hit("translator:row_body_vs_real")
+
+
 def run(ctx, report, status):
     translator_cross_check(report, status)
     detect_variant(report)
@@ -524,6 +582,7 @@ def run(ctx, report, status):
         check_run_case(ctx, report, c, "validation_run_filled")
     for case, captured, label in pipeline_cases(ctx, report, ctx.n(5, 50)):
         check_case(ctx, report, case, label, captured=captured)
+    kernel_cross_check(ctx, report, status)
 
 
 def search(ctx, report, status):
